@@ -25,16 +25,18 @@ def parseDir (loc0 : Int) (s : String) : Option Dir :=
   let locs := (loc0 :: es.map (·.2)).toArray
   some { entries := es.map (·.1), loc := fun i => locs.getD i (-1) }
 
-def parseCall (s : String) : Option (Nat × Nat) :=
+/-- `bufLen:cookie` or `bufLen:cookie:ENAME` (value of errno on entry; `-`/absent = 0) -/
+def parseCall (s : String) : Option (Nat × Nat × Option String) :=
   match s.splitOn ":" with
-  | [a, b] => do some (← a.toNat?, ← b.toNat?)
+  | [a, b] => do some (← a.toNat?, ← b.toNat?, none)
+  | [a, b, e] => do some (← a.toNat?, ← b.toNat?, if e == "-" then none else some e)
   | _ => none
 
-def runSession (pm : Nat) (d : Dir) (path : List UInt8) : List (Nat × Nat) → Option Pos → List String → List String
+def runSession (pm : Nat) (d : Dir) (path : List UInt8) : List (Nat × Nat × Option String) → Option Pos → List String → List String
   | [], _, acc => acc.reverse
-  | (bl, cookie) :: rest, st, acc =>
+  | (bl, cookie, stale) :: rest, st, acc =>
     let mem : Mem := List.replicate (8 + bl) 0xAA
-    match fdReaddir pm d path st mem 8 bl cookie 0 with
+    match fdReaddir pm d path stale st mem 8 bl cookie 0 with
     | .val (.done r) =>
       let used := leVal (r.mem.take 4)
       let line := s!"{r.errno} {used} {hex ((r.mem.drop 8).take bl)} {hex ((r.mem.drop 4).take 4)}"
